@@ -361,7 +361,7 @@ def randomize(X, start, end, probs=[[0.25, 0.25, 0.25, 0.25]], n=1,
 	if end <= start:
 		raise ValueError("End must come after start.")
 
-	if end >= X.shape[-1] or start < 0:
+	if end > X.shape[-1] or start < 0:
 		raise ValueError("Start or end are falling off the edge of X.")
 
 	X_rands = []
